@@ -488,6 +488,18 @@ class Verifier:
                             last = n.targets[0].id
                         first = n.targets[0].id
                         break
+        # when the recorded shape of the first statement's right-hand side is found on an
+        # assignment to `first` itself, that statement anchors the block (several statements of
+        # the function may assign the name, e.g. in an outer statement list)
+        anchor = None
+        if c.block_like and not rename:
+            pat = ast.parse(c.block_like, mode='eval').body
+            for n in ast.walk(fdef):
+                if isinstance(n, ast.Assign) and len(n.targets) == 1 and \
+                        isinstance(n.targets[0], ast.Name) and n.targets[0].id == first and \
+                        _unify(pat, n.value, {}) is not None:
+                    anchor = n
+                    break
         for n in ast.walk(fdef):
             for fld in ('body', 'orelse', 'finalbody'):
                 lst = getattr(n, fld, None)
@@ -495,8 +507,11 @@ class Verifier:
                     continue
                 idx = [i for i, s_ in enumerate(lst) if isinstance(s_, ast.stmt)
                        and assigns(s_, first)]
+                if anchor is not None:
+                    idx = [i for i in idx if lst[i] is anchor or (
+                        isinstance(lst[i], ast.With) and any(x is anchor for x in ast.walk(lst[i])))]
                 if idx:
-                    lo = idx[min(fnth, len(idx) - 1)]
+                    lo = idx[min(fnth, len(idx) - 1)] if anchor is None else idx[0]
                     his = [i for i in range(lo, len(lst))
                            if any(assigns(x, last) for x in ast.walk(lst[i])
                                   if isinstance(x, ast.stmt))]
